@@ -403,6 +403,16 @@ pub fn builder_module(raw: &[u8; RAW]) -> u32 {
             return E_VERSION;
         }
     }
+    // one id that gets a definition and one that is only reserved (referenced later, say): the bound covers both
+    if next_id == 0 || next_id > 0xffff_fff0 {
+        return 1;
+    }
+    let defined = b.type_void();
+    let reserved = b.id();
+    if defined != next_id || reserved != next_id + 1 {
+        return E_ID_NOT_FRESH;
+    }
+    let next_id = next_id + 2;
     let m = b.module();
     let h = match m.header {
         Some(ref h) => h,
